@@ -1,0 +1,13 @@
+//go:build verif
+
+package tls
+
+// Verification hook (build tag "verif" only). Separate from zz_verif_kdf.go
+// because extMasterFromPreMasterSecret exists only since the RFC 7627 fix
+// (/verif/fixes/C26-extended-master-secret.diff); drop this file together with
+// /verif/harness/engines/tlskdfeng/c26_ems.go to build against a tree without it.
+
+// VerifExtMasterFromPreMasterSecret wraps extMasterFromPreMasterSecret.
+func VerifExtMasterFromPreMasterSecret(version uint16, s VerifKDFSuite, preMasterSecret, sessionHash []byte) []byte {
+	return extMasterFromPreMasterSecret(version, verifKDFSuitePtr(s), preMasterSecret, sessionHash)
+}
